@@ -1,10 +1,37 @@
-"""Per-property configuration of ./check: Lean modules, correspondence streams, oracles."""
+"""Per-property configuration of ./check: Lean modules, correspondence streams, oracles, and the
+texts that go into MANIFEST.json (regenerate with ./mkmanifest.py)."""
+
+HOOK_COMMITS = ["42d3529"]
+NOT_APPLICABLE = {}
 
 PROPS = {
+    "C18": {
+        "lean": ["OxiModel.Props.C18"],
+        "streams": [{"name": "corr-geom", "quick": 60, "thorough": 600}],
+        "oracles": [],
+        "claim": "Lean 4 theorems for all w>=1, h, bpp: raw_data_size equals the total length of the specification's scan lines (both layouts, "
+                 "empty passes omitted), closed forms of the seven pass sizes, pass areas partition the image; the scan-line iterator, "
+                 "raw_data_size, interlace_image and deinterlace_image are modelled literally and compared with the code on every (w,h) up to "
+                 "24x24 (thorough 72x72) for the legal type/depth pairs, on position-labelled images, in both directions, plus malformed lengths; "
+                 "the stream also compares the code directly with the harness's own specification-derived geometry.",
+        "note": "Proved so far: sizes (raw_data_size = spec), pass-size closed forms, area partition. The iterator = spec-lines theorem and the pixel-placement/"
+                "round-trip theorems for interlace/deinterlace are stated as growth items; until then those clauses rest on the exhaustive-up-to-bound "
+                "correspondence and oracle streams. Trusted: Lean kernel, correspondence tie (tested), harness reference geometry.",
+        "technique": "Lean 4 proof (omega over unbounded sizes) + exhaustive-to-bound model/implementation correspondence",
+        "rule": "all (w,h) in 1..24 (thorough 1..72) x legal colour-type/depth pairs x interlaced/not x with/without filter byte, plus sparse large sizes and "
+                "malformed data lengths; interlace/deinterlace on position-labelled images for all (w,h) in 1..12 (thorough 1..40) plus random sizes up to 72; "
+                "distinct = distinct request lines",
+    },
     "C19": {
         "lean": ["OxiModel.Props.C19"],
         "streams": [{"name": "corr-filters", "quick": 3000, "thorough": 60000}],
         "oracles": [{"name": "oracle-c19", "quick": 1500, "thorough": 30000}],
+        "claim": "Lean 4 theorems: generic decode(encode) round trip for every predictor, each filter_line/unfilter_line arm identified with the "
+                 "specification's filter/reconstruction for all bpp>=1 and all rows, Paeth = spec on all triples; model tied to the code by exact "
+                 "correspondence streams (incl. all 2^24 Paeth triples) and an image-level oracle for the ten strategies.",
+        "note": "Lean kernel + propext/Quot.sound; model-code tie is tested (streams), not proved; the heuristic strategies' per-row choice is covered as "
+                "'any legal choice' by the image-level oracle.",
+        "technique": "Lean 4 proof (induction along the scan line) + model/implementation correspondence check",
         "rule": "filter_line/unfilter_line on random and structured rows (zeros, 0xFF, ramps, few values) for bpp in {1,2,3,4,6,8}, "
                 "a malformed stream violating the length asserts, Paeth on all 2^24 triples as a digest; oracle: filter_image for the ten "
                 "strategies on generated images of the 15 legal type/depth pairs, interlaced or not, reconstructed by reference code written "
